@@ -746,6 +746,10 @@ impl Gen {
     }
 }
 
+pub fn gen_strategy_pub(max_toks: usize) -> impl Strategy<Value = Gen> {
+    gen_strategy(max_toks)
+}
+
 fn gen_strategy(max_toks: usize) -> impl Strategy<Value = Gen> {
     (
         proptest::collection::vec(tok_strategy(), 0..=max_toks),
